@@ -207,9 +207,13 @@ def tiff_layout(prog, res, rule="R-TIFF-LAYOUT"):
             res.fail(rule, "Tiff::append layout", "%s|%s" % (rule, t), f.loc(), m)
         return
 
+    anchors = {var_of(x)["id"] for x in (O1, O2, O3, N2) if var_of(x) is not None}
+
     def body(v):
-        """defining expression of a local, helper calls inlined, other locals kept as atoms"""
-        return congr.inline_expr(prog, f, defs[var_of(v)["id"]], defs={})
+        """defining expression of a local: helper calls and auxiliary locals
+        inlined, the three section offsets and the pixel count kept as atoms"""
+        keep = {k: d for k, d in defs.items() if k not in anchors}
+        return congr.inline_expr(prog, f, defs[var_of(v)["id"]], defs=keep)
 
     def check(tag, inst, ok, msg):
         if ok:
